@@ -1,6 +1,11 @@
-(* C13 — string built-ins.  Statements only; proofs in proofs/StrLibProofs.v. *)
-From Coq Require Import ZArith List Bool Arith.
+(* C13 — string built-ins.  Statements only; proofs in proofs/StrLibProofs.v (search, replace,
+   split/join, slice), proofs/StrUtf8Proofs.v (UTF-8 validity of every result),
+   proofs/NumParseProofs.v (to_number) and proofs/CaseMapProofs.v (to_uppercase/to_lowercase). *)
+From Coq Require Import ZArith List Bool Arith SpecFloat.
 Require Import NS.theories.Generated NS.theories.StrLib NS.proofs.StrLibProofs.
+Require Import NS.theories.Utf8 NS.proofs.StrUtf8Proofs.
+Require Import NS.theories.F64 NS.proofs.F64Proofs NS.theories.NumParse NS.proofs.NumParseProofs.
+Require Import NS.theories.GenUnicode NS.theories.CaseMap NS.proofs.CaseMapProofs.
 Import ListNotations.
 Open Scope nat_scope.
 
@@ -60,7 +65,7 @@ Print Assumptions C13_join_split.
 Theorem C13_slice_spec :
   forall s a b, exists st en, slice_bounds (Z.of_nat (str_len s)) a b = (st, en) /\
   (0 <= st <= Z.of_nat (str_len s))%Z /\ (0 <= en <= Z.of_nat (str_len s))%Z /\
-  slice s a b = if (en <=? st)%Z then [] else concat (firstn (Z.to_nat (en - st)) (skipn (Z.to_nat st) (chars s))).
+  StrLib.slice s a b = if (en <=? st)%Z then [] else concat (firstn (Z.to_nat (en - st)) (skipn (Z.to_nat st) (chars s))).
 Proof. exact slice_is_sublist. Qed.
 Print Assumptions C13_slice_spec.
 
@@ -73,3 +78,222 @@ Example demo_find_long :
   let n := [97;98;97;98;97;98;97;98;97;98;97;98;97;98;97;98;97;99]%Z in
   find ([120;97;98] ++ n ++ [121])%Z n = Found 3.
 Proof. vm_compute. reflexivity. Qed.
+
+(* ------------------------------------------------------------------ all results are valid UTF-8 *)
+
+(* UTF-8 self-synchronisation: in a valid haystack a valid non-empty needle can only match on
+   code-point boundaries, at both ends.  This is what makes the unchecked slicing in
+   replace.rs (and `find`'s byte index handed to scripts) sound. *)
+Theorem C13_find_boundary :
+  forall (h n : list Z) i,
+  valid_utf8 h = true -> valid_utf8 n = true -> n <> [] -> find h n = Found i ->
+  is_boundary h i = true /\ is_boundary h (i + length n) = true.
+Proof. exact find_boundary. Qed.
+Print Assumptions C13_find_boundary.
+
+(* replace never fails and its result is valid UTF-8, for every pattern including the empty one
+   (which inserts between code points) *)
+Theorem C13_replace_valid_utf8 :
+  forall h from to : list Z,
+  valid_utf8 h = true -> valid_utf8 from = true -> valid_utf8 to = true ->
+  exists r, replace h from to = SOk r /\ valid_utf8 r = true.
+Proof. exact replace_valid_utf8. Qed.
+Print Assumptions C13_replace_valid_utf8.
+
+Theorem C13_split_pieces_valid :
+  forall s sep : list Z, valid_utf8 s = true -> valid_utf8 sep = true ->
+  Forall (fun p => valid_utf8 p = true) (split s sep).
+Proof. exact split_pieces_valid. Qed.
+Print Assumptions C13_split_pieces_valid.
+
+Theorem C13_join_valid :
+  forall (parts : list (list Z)) (sep : list Z),
+  Forall (fun p => valid_utf8 p = true) parts -> valid_utf8 sep = true -> valid_utf8 (join parts sep) = true.
+Proof. exact join_valid. Qed.
+Print Assumptions C13_join_valid.
+
+Theorem C13_slice_valid_utf8 :
+  forall (s : list Z) (a b : Z), valid_utf8 s = true -> valid_utf8 (StrLib.slice s a b) = true.
+Proof. exact slice_valid_utf8. Qed.
+Print Assumptions C13_slice_valid_utf8.
+
+Theorem C13_trim_valid_utf8 : forall s : list Z, valid_utf8 s = true -> valid_utf8 (trim s) = true.
+Proof. exact trim_valid_utf8. Qed.
+Print Assumptions C13_trim_valid_utf8.
+
+(* the chunks `chars` cuts a valid string into are exactly its code points, and `len` counts them *)
+Theorem C13_chars_code_points :
+  forall s : list Z, valid_utf8 s = true ->
+  Forall (fun c => valid_utf8 c = true /\ c <> [] /\ length c = char_width (hd 0%Z c)) (chars s).
+Proof. exact chars_valid. Qed.
+Print Assumptions C13_chars_code_points.
+
+Theorem C13_len_counts_code_points :
+  forall s : list Z, valid_utf8 s = true -> str_len s = char_count s.
+Proof. exact chars_char_count. Qed.
+Print Assumptions C13_len_counts_code_points.
+
+(* ------------------------------------------------------------------ to_number *)
+
+(* total: every byte string yields a canonical binary64 (one that has a bit pattern) *)
+Theorem C13_to_number_total : forall s : list Z, valid (to_number s).
+Proof. exact to_number_valid. Qed.
+Print Assumptions C13_to_number_total.
+
+(* whatever the grammar does not accept is NaN *)
+Theorem C13_to_number_error_is_nan : forall s : list Z, parse_f64 s = None -> to_number s = S754_nan.
+Proof. exact to_number_error. Qed.
+Print Assumptions C13_to_number_error_is_nan.
+
+(* an accepted numeral (optional single sign; digits, optional fraction, optional exponent) has
+   the value: its digits read as an integer, times ten to the exponent, rounded once *)
+Theorem C13_to_number_value :
+  forall (sgn body : list Z) (ds : list Z) (e : Z),
+  (sgn = [] \/ sgn = [43%Z] \/ sgn = [45%Z]) ->
+  (match body with c :: _ => c <> 43%Z /\ c <> 45%Z | [] => False end) ->
+  parse_decimal body = Some (ds, e) ->
+  to_number (sgn ++ body) = exact_round (match sgn with [45%Z] => true | _ => false end) (digits_val 0 ds) e.
+Proof. exact to_number_decimal. Qed.
+Print Assumptions C13_to_number_value.
+
+(* "rounded once" is IEEE round-to-nearest-even: the result of rounding the positive fraction
+   a/b is the double m*2^e whenever a/b lies between the midpoints to m*2^e's neighbours (end
+   points included exactly when m is even; the lower midpoint is half as far at a power of two) *)
+Theorem C13_round_nearest_even :
+  forall (neg : bool) (m : positive) (e a b : Z),
+  (0 < a)%Z -> (0 < b)%Z -> valid (S754_finite neg m e) -> in_round_interval m e a b ->
+  round_q neg a b = S754_finite neg m e.
+Proof. exact round_q_interval. Qed.
+Print Assumptions C13_round_nearest_even.
+
+(* beyond the largest finite double it is infinity, below half the least subnormal it is zero *)
+Theorem C13_round_overflow :
+  forall neg a b, (0 < a)%Z -> (0 < b)%Z -> (b * 2 ^ 1024 <= a)%Z -> round_q neg a b = S754_infinity neg.
+Proof. exact round_q_overflow. Qed.
+Print Assumptions C13_round_overflow.
+
+Theorem C13_round_underflow :
+  forall neg a b, (0 < a)%Z -> (0 < b)%Z -> (a * 2 ^ 1075 < b)%Z -> round_q neg a b = S754_zero neg.
+Proof. exact round_q_underflow. Qed.
+Print Assumptions C13_round_underflow.
+
+(* the model's early exits for huge / tiny exponents do not change the value *)
+Theorem C13_round_dec_exact :
+  forall neg ds e, Forall (fun d => (48 <= d <= 57)%Z) ds -> round_dec neg ds e = exact_round neg (digits_val 0 ds) e.
+Proof. exact round_dec_exact. Qed.
+Print Assumptions C13_round_dec_exact.
+
+(* sign and zero: "-0", "-0.0e7", "+0" ... *)
+Theorem C13_to_number_sign :
+  forall (sgn body ds : list Z) (e : Z),
+  (sgn = [] \/ sgn = [43%Z] \/ sgn = [45%Z]) ->
+  (match body with c :: _ => c <> 43%Z /\ c <> 45%Z | [] => False end) ->
+  parse_decimal body = Some (ds, e) ->
+  sign_of (to_number (sgn ++ body)) = (match sgn with [45%Z] => true | _ => false end).
+Proof. exact to_number_sign. Qed.
+Print Assumptions C13_to_number_sign.
+
+Theorem C13_to_number_zero :
+  forall (sgn body ds : list Z) (e : Z),
+  (sgn = [] \/ sgn = [43%Z] \/ sgn = [45%Z]) ->
+  (match body with c :: _ => c <> 43%Z /\ c <> 45%Z | [] => False end) ->
+  parse_decimal body = Some (ds, e) -> digits_val 0 ds = 0%Z ->
+  to_number (sgn ++ body) = S754_zero (match sgn with [45%Z] => true | _ => false end).
+Proof. exact to_number_zero. Qed.
+Print Assumptions C13_to_number_zero.
+
+(* the two directions of the number/text conversion fit together: what Display prints for a
+   number (F64.fmt, the model of Rust's `{}` used by C05/C06) parses back to the same number,
+   for EVERY binary64 value: zeros of both signs, subnormals, infinities, and NaN to NaN *)
+Theorem C13_parse_of_fmt_roundtrip : forall x : f64, valid x -> to_number (fmt x) = x.
+Proof. exact parse_of_fmt_roundtrip. Qed.
+Print Assumptions C13_parse_of_fmt_roundtrip.
+
+(* ------------------------------------------------------------------ to_uppercase / to_lowercase *)
+
+(* the tables regenerated from the toolchain's unicode_data.rs are well formed: sorted disjoint
+   ranges (so the linear scan of the model finds what std's binary search finds), every image a
+   Unicode scalar value, no interior NUL padding *)
+Theorem C13_case_tables_wf : tables_ok = true.
+Proof. exact tables_wf. Qed.
+Print Assumptions C13_case_tables_wf.
+
+Theorem C13_upper_cp_scalar : forall cp, scalar cp -> Forall scalar (upper_cp cp).
+Proof. exact upper_cp_scalar. Qed.
+Print Assumptions C13_upper_cp_scalar.
+
+Theorem C13_lower_cp_scalar : forall cp, scalar cp -> Forall scalar (lower_cp cp).
+Proof. exact lower_cp_scalar. Qed.
+Print Assumptions C13_lower_cp_scalar.
+
+Theorem C13_case_cp_len :
+  forall cp, (1 <= length (upper_cp cp) <= 3) /\ (1 <= length (lower_cp cp) <= 3).
+Proof. intros cp. split; [apply upper_cp_len|apply lower_cp_len]. Qed.
+Print Assumptions C13_case_cp_len.
+
+Theorem C13_to_upper_valid_utf8 : forall s : list Z, valid_utf8 s = true -> valid_utf8 (to_upper s) = true.
+Proof. exact to_upper_valid_utf8. Qed.
+Print Assumptions C13_to_upper_valid_utf8.
+
+Theorem C13_to_lower_valid_utf8 : forall s : list Z, valid_utf8 s = true -> valid_utf8 (to_lower s) = true.
+Proof. exact to_lower_valid_utf8. Qed.
+Print Assumptions C13_to_lower_valid_utf8.
+
+(* on ASCII strings the Unicode functions are the byte-wise ASCII ones *)
+Theorem C13_to_upper_ascii : forall s, is_ascii_str s = true -> to_upper s = ascii_upper_str s.
+Proof. exact to_upper_ascii. Qed.
+Print Assumptions C13_to_upper_ascii.
+
+Theorem C13_to_lower_ascii : forall s, is_ascii_str s = true -> to_lower s = ascii_lower_str s.
+Proof. exact to_lower_ascii. Qed.
+Print Assumptions C13_to_lower_ascii.
+
+(* ------------------------------------------------------------------ examples *)
+Local Open Scope Z_scope.
+
+(* to_number: accepted shapes *)
+Example demo_num_1 : to_number [49; 46; 53] = S754_finite false 6755399441055744 (-52).            (* "1.5" *)
+Proof. vm_compute. reflexivity. Qed.
+Example demo_num_2 : to_number [45; 46; 53; 69; 43; 49] = S754_finite true 5629499534213120 (-50).  (* "-.5E+1" = -5 *)
+Proof. vm_compute. reflexivity. Qed.
+Example demo_num_3 : to_number [45; 48] = S754_zero true.                                           (* "-0" *)
+Proof. vm_compute. reflexivity. Qed.
+Example demo_num_4 : to_number [105; 78; 102; 73; 110; 105; 84; 121] = S754_infinity false.        (* "iNfIniTy" *)
+Proof. vm_compute. reflexivity. Qed.
+Example demo_num_5 : to_number [45; 105; 110; 102] = S754_infinity true.                            (* "-inf" *)
+Proof. vm_compute. reflexivity. Qed.
+(* 2^53 + 1 is half-way between two doubles: ties go to the even mantissa *)
+Example demo_num_tie : to_number [57;48;48;55;49;57;57;50;53;52;55;52;48;57;57;51] = S754_finite false 4503599627370496 1.
+Proof. vm_compute. reflexivity. Qed.
+(* least subnormal, and the half-way point below it (2^-1075, 752 significant digits when written out) *)
+Example demo_num_sub : to_number [53; 101; 45; 51; 50; 52] = S754_finite false 1 (-1074).            (* "5e-324" *)
+Proof. vm_compute. reflexivity. Qed.
+Example demo_num_under : to_number [50; 101; 45; 51; 50; 52] = S754_zero false.                      (* "2e-324" *)
+Proof. vm_compute. reflexivity. Qed.
+Example demo_num_over : to_number [49; 101; 51; 48; 57] = S754_infinity false.                       (* "1e309" *)
+Proof. vm_compute. reflexivity. Qed.
+Example demo_num_huge_exp : to_number [49; 101; 57; 57; 57; 57; 57; 57; 57; 57; 57; 57; 57; 57; 57; 57; 57; 57; 57; 57; 57; 57] = S754_infinity false.
+Proof. vm_compute. reflexivity. Qed.
+(* rejected: "", "+", ".", "1e", "1e+", " 1", "1 ", "1_0", "+-1", "0x1", "infinit", "1.2.3", "e5" *)
+Example demo_num_junk :
+  map to_number [[]; [43]; [46]; [49; 101]; [49; 101; 43]; [32; 49]; [49; 32]; [49; 95; 48]; [43; 45; 49]; [48; 120; 49];
+                 [105; 110; 102; 105; 110; 105; 116]; [49; 46; 50; 46; 51]; [101; 53]]
+  = repeat S754_nan 13.
+Proof. vm_compute. reflexivity. Qed.
+(* the hypotheses of C13_to_number_value are satisfiable *)
+Example demo_num_parse : parse_decimal [49; 50; 46; 53; 101; 45; 51] = Some ([49; 50; 53], -4).      (* "12.5e-3" *)
+Proof. vm_compute. reflexivity. Qed.
+(* Display -> to_number on a few concrete values (the theorem covers all) *)
+Example demo_roundtrip :
+  map (fun x => to_number (fmt x))
+      [S754_finite false 1 (-1074); S754_finite true 9007199254740991 971; S754_finite false 7205759403792794 (-56)]
+  = [S754_finite false 1 (-1074); S754_finite true 9007199254740991 971; S754_finite false 7205759403792794 (-56)].
+Proof. vm_compute. reflexivity. Qed.
+
+(* case mapping: multi-character expansions, no final-sigma rule, wrapping table delta, plane 1 *)
+Example demo_case_1 : to_upper [115; 116; 114; 97; 195; 159; 101] = [83; 84; 82; 65; 83; 83; 69].    (* "straße" -> "STRASSE" *)
+Proof. vm_compute. reflexivity. Qed.
+Example demo_case_2 : to_lower [206; 145; 206; 163] = [206; 177; 207; 131].                         (* "ΑΣ" -> "ασ", not "ας" *)
+Proof. vm_compute. reflexivity. Qed.
+Example demo_case_3 : lower_cp 304 = [105; 775] /\ upper_cp 329 = [700; 78] /\ upper_cp 411 = [42972] /\ lower_cp 66560 = [66600].
+Proof. vm_compute. repeat split. Qed.
